@@ -216,6 +216,7 @@ func TestVerifC08(t *testing.T) {
 		_, feedNames := setFeeds(g, r)
 		base := wk.Handler(g.World)
 		s.SetHandler(withLatency(base, c.Rand(n, 1), 5))
+		s.ResetLog() // the byte log is only needed per world; keeping it would grow without bound
 		if !c.Begin(n, fmt.Sprintf("concurrent session, world anomaly=%d", o.Anomaly)) {
 			continue
 		}
